@@ -66,7 +66,7 @@ claimed = {
    note=TB+"openpgp.CheckDetachedSignature, io.MultiReader/NewSectionReader over ghost content assumed.",
    technique=DED+" with trusted contracts on the OpenPGP library", design="3 (C16), 6"),
  "C17": dict(
-   text="Deductive proof, for arbitrary input: ParseOne returns io.EOF only at a clean end (input exhausted and everything consumed since the previous entry blank), so input ending inside an entry yields another error; a value xor an error; progress and termination of ParseOne and Parse; partition splits at the FIRST delimiter and keeps the rest verbatim; the change text of an entry is one contiguous piece of the input, byte for byte. Field-by-field conformance to the dpkg changelog model is checked by the bounded stand-in (2.8 M renderings and truncations), labelled bounded.",
+   text="Deductive proof, for arbitrary input: ParseOne returns io.EOF only at a clean end (input exhausted and everything consumed since the previous entry blank), so input ending inside an entry yields another error; a value xor an error; progress and termination of ParseOne and Parse; partition splits at the FIRST delimiter and keeps the rest verbatim; the change text of an entry is one contiguous piece of the input, byte for byte; source name and distribution list are the named pieces of the first non-blank line, the maintainer the piece of the ' -- ' trailer line between '--' and the first double blank. Version, options, timestamp and the order of entries in Parse (model conformance) are checked by the bounded stand-in (2.8 M renderings and truncations), labelled bounded.",
    note=TB+"bufio ReadString over ghost input, time.Parse, strings.SplitN assumed. Model conformance: bounded only.",
    technique=DED+"; bounded exhaustive stand-in for model conformance", design="3 (C17), 6"),
  "C20": dict(
@@ -119,7 +119,7 @@ m = {
  ],
  "checks": checks,
  "not_applicable": [{"property_id": p, "reason": na.get(p, pending_reason)} for p in allp if p not in claimed],
- "notes": "See DESIGN.md. Bounded stand-ins, where present, are reported under coverage.bounded and never counted in obligations/discharged.",
+ "notes": "See DESIGN.md (section 7: as built). Bounded stand-ins, where present, are reported under coverage.bounded and never counted in obligations/discharged. Thorough tier: 60 s solver timeout, larger bounded domains, and the must-fail corpus entries of the property re-run against scratch copies (recorded under coverage.selftest; a self-check of the machinery, never a VIOLATION).",
 }
 json.dump(m, open("/verif/MANIFEST.json", "w"), indent=1)
 print("claimed:", sorted(claimed))
